@@ -410,7 +410,12 @@ func RunHistory(st *PState, pc *PCase, obs PObserver) (class, msg string, at int
 		case "reset":
 			var data []byte
 			l := op.B
-			switch op.A {
+			mode := op.A
+			if st.BufferSize > 1<<22 && mode >= 3 {
+				// the oversize / huge-capacity slices would need gigabytes
+				mode = 1
+			}
+			switch mode {
 			case 0:
 				data = nil
 			case 1, 2, 3:
@@ -419,10 +424,10 @@ func RunHistory(st *PState, pc *PCase, obs PObserver) (class, msg string, at int
 				}
 				src := st.take(int64(l))
 				c := len(src)
-				if op.A == 2 {
+				if mode == 2 {
 					c = len(src) + 7 + op.C
 				}
-				if op.A == 3 {
+				if mode == 3 {
 					c = 4*st.BufferSize + 100 + len(src)
 				}
 				data = make([]byte, len(src), c)
